@@ -1050,6 +1050,11 @@ func (p *Program) e8Rows() map[string]*e8row {
 			ln := lnm[0]
 			N := R(a, ln)
 			closed := a.B("recv.closed")
+			for _, b := range n.bools {
+				if strings.HasPrefix(b, "isnil(recv") && a.B(b) {
+					return "" // a nil series has no points: not a state this row describes
+				}
+			}
 			if !out.returned || len(out.ret) != 1 {
 				return "no result"
 			}
